@@ -8,28 +8,44 @@ use crate::exact::decompose;
 pub struct SmallQ {
     /// acceptable answers (one, or two when n·p is within rounding of a whole number)
     pub accept: Vec<f64>,
+    /// per acceptable answer: the two order statistics it was formed from (equal when the
+    /// answer is an order statistic itself).  The average of a <= b lies in [a, b], and so
+    /// does every rounding of it since a and b are representable.
+    pub bracket: Vec<(f64, f64)>,
     pub note: &'static str,
 }
 
-fn value_for_whole(h: &[f64], k: i128) -> f64 {
+/// the average of two finite numbers to within one rounding (two in the subnormal range):
+/// (a+b)/2 unless the sum overflows, a/2 + b/2 then
+fn average(a: f64, b: f64) -> f64 {
+    let s = a + b;
+    if s.is_finite() {
+        s / 2.
+    } else {
+        a / 2. + b / 2.
+    }
+}
+fn value_for_whole(h: &[f64], k: i128) -> (f64, (f64, f64)) {
     // n·p == k (whole): index j = k-1; averaged with the next larger one if there is one
     let n = h.len() as i128;
     if k <= 0 {
-        return h[0];
+        return (h[0], (h[0], h[0]));
     }
     let j = (k - 1).min(n - 1) as usize;
     if (j as i128) < n - 1 {
-        // evaluated so that it cannot overflow for |h| near f64::MAX
-        h[j] / 2. + h[j + 1] / 2.
+        (average(h[j], h[j + 1]), (h[j], h[j + 1]))
     } else {
-        h[j]
+        (h[j], (h[j], h[j]))
     }
 }
-fn value_for_ceil(h: &[f64], c: i128) -> f64 {
+fn value_for_ceil(h: &[f64], c: i128) -> (f64, (f64, f64)) {
     // n·p not whole, ceil = c: index c-1 clamped
     let n = h.len() as i128;
     let j = (c - 1).clamp(0, n - 1) as usize;
-    h[j]
+    (h[j], (h[j], h[j]))
+}
+fn mk(v: Vec<(f64, (f64, f64))>, note: &'static str) -> SmallQ {
+    SmallQ { accept: v.iter().map(|x| x.0).collect(), bracket: v.iter().map(|x| x.1).collect(), note }
 }
 
 pub fn small_quantile(p: f64, obs: &[f64]) -> SmallQ {
@@ -38,27 +54,28 @@ pub fn small_quantile(p: f64, obs: &[f64]) -> SmallQ {
     h.sort_by(|a, b| a.partial_cmp(b).unwrap());
     let n = h.len() as i128;
     if p == 0. {
-        return SmallQ { accept: vec![h[0]], note: "p = 0: minimum" };
+        return mk(vec![(h[0], (h[0], h[0]))], "p = 0: minimum");
     }
     // p = m·2^e exactly, m odd, e <= 0 for p in (0,1]
     let (m, e) = decompose(p);
     let m = m as i128;
     if e >= 0 {
         // p == 1
-        return SmallQ { accept: vec![h[h.len() - 1]], note: "p = 1: maximum" };
+        let m = h[h.len() - 1];
+        return mk(vec![(m, (m, m))], "p = 1: maximum");
     }
     let sh = (-e) as u32;
     // n·p = n·m / 2^sh
     if sh >= 120 {
         // p < 2^-60: 0 < n·p << 1, not near a whole number >= 1; near 0 only
-        return SmallQ { accept: vec![h[0]], note: "tiny p: ceil(n·p) = 1" };
+        return mk(vec![(h[0], (h[0], h[0]))], "tiny p: ceil(n·p) = 1");
     }
     let num = n * m;
     let den: i128 = 1i128 << sh;
     let fl = num / den;
     let rem = num % den;
     if rem == 0 {
-        return SmallQ { accept: vec![value_for_whole(&h, fl)], note: "n·p whole" };
+        return mk(vec![value_for_whole(&h, fl)], "n·p whole");
     }
     let ceil = fl + 1;
     let mut accept = vec![value_for_ceil(&h, ceil)];
@@ -74,5 +91,5 @@ pub fn small_quantile(p: f64, obs: &[f64]) -> SmallQ {
     if near(den - rem) {
         accept.push(value_for_whole(&h, ceil));
     }
-    SmallQ { accept, note: "n·p not whole" }
+    mk(accept, "n·p not whole")
 }
